@@ -135,6 +135,22 @@ func init() {
 		}
 		return Iface{}
 	})
+	reg("os.Truncate", func(in *Interp, fr *frame, fn *ssa.Function, args []Value) Value {
+		name := in.argStr(args[0], "file name")
+		f, ok := in.getFS().files[name]
+		if !ok {
+			return in.pathErr("truncate", name, "ErrNotExist")
+		}
+		n := in.concreteInt(args[1], "truncate size")
+		if n < 0 {
+			return in.fsErr("ErrInvalid")
+		}
+		for len(f.data) < n {
+			f.data = append(f.data, in.tb.bytes[0])
+		}
+		f.data = f.data[:n:n]
+		return Iface{}
+	})
 	reg("os.Rename", func(in *Interp, fr *frame, fn *ssa.Function, args []Value) Value {
 		from, to := in.argStr(args[0], "file name"), in.argStr(args[1], "file name")
 		fs := in.getFS()
